@@ -31,6 +31,12 @@ FEATS = featgen.FEATURES
 # the three keys of the old findings, so a recurrence is reported as a violation.
 REQUIRED_NUMBERS_REPAIRED = True
 CHK = "views_chk"
+# Group-like lookup aliases (findings msg-fbyjson-differs / oneof-fbytext-differs, repair fixes/C04-grouplike-lookup-aliases.diff,
+# inputs corpus/C04/grouplike-aliases-*.proto): the Go runtime finds a group-like field of a MESSAGE also by its lower-cased
+# JSON name, and does NOT find a group-like member of a ONEOF by its field name through ByTextName; the linker's lists differ
+# on both. The alias queries (every name in lower and upper case for ByJSONName / ByTextName; the field name of a group-typed
+# member on a oneof's list) are asked only with VERIF_C04_GROUPLIKE_ALIASES=1 (default off until the repair is applied).
+GROUPLIKE_ALIASES = os.environ.get("VERIF_C04_GROUPLIKE_ALIASES", "0") == "1"
 
 # ------------------------------------------------------------------------------------------------
 def pregen():
@@ -264,7 +270,7 @@ def run(ctx):
             cases.append({"files": {k: p.files[k] for k in p.order[: p.order.index(fn) + 1]}, "main": fn, "origin": "generated"})
     # table cross-check
     dcase = {"mode": "defaults"}
-    outs = ctx.impl("views", [dcase] + [{k: c[k] for k in ("files", "main")} for c in cases])
+    outs = ctx.impl("views", [dcase] + [dict({k: c[k] for k in ("files", "main")}, aliases=GROUPLIKE_ALIASES) for c in cases])
     dout, outs = outs[0], outs[1:]
     terms, meta = [], []
     if "code" not in dout:
@@ -293,7 +299,7 @@ def run(ctx):
         inj = gen_injections(rng, o["elems"])
         if inj:
             inj_cases.append({"files": c["files"], "main": c["main"], "inject": inj, "origin": "injected"})
-    inj_outs = ctx.impl("views", [{k: c[k] for k in ("files", "main", "inject")} for c in inj_cases]) if inj_cases else []
+    inj_outs = ctx.impl("views", [dict({k: c[k] for k in ("files", "main", "inject")}, aliases=GROUPLIKE_ALIASES) for c in inj_cases]) if inj_cases else []
 
     import time as _t
     ctx.extra["t_impl"] = round(_t.time() - ctx.t0, 1)
@@ -449,6 +455,7 @@ def run(ctx):
                                                              "linker_has": lkh, "runtime_has": rth})))
         if len(ctx.samples) < 3 and c["origin"] == "generated" and len(c["files"][c["main"]]) < 900:
             ctx.sample({"main": c["main"], "text": c["files"][c["main"]]})
+    stats["grouplike_alias_queries"] = GROUPLIKE_ALIASES
     ctx.extra["c04_stats"] = stats
     if stats["programs"] < 20:
         raise RuntimeError("too few accepted programs: %r" % stats)
